@@ -20,7 +20,7 @@ META = {
         'C15.COV - the decomposed matrix is np.cov / np.corrcoef of the (standardised) data over columns, i.e. mean-centred; '
         'C15.PURE-PROPS - the lazy properties of computechi2 and pcomp neither assign attributes nor write in place into attribute '
         'arrays (reading them in any order gives the same values); C15.PINV - computechi2 forms the pseudo-inverse from every singular value, with no absolute cut-off; C15.SYNW - the synthetic weights of pca_solve never become 0 for a pixel masked in every spectrum; C15.USEMASK - pca_solve returns outmask.sum(0), the count of good '
-        'spectra per pixel. NOT decided: every optimality, monotonicity, normalisation and projection statement (numerical).'),
+        'spectra per pixel. C15.DOF - degrees of freedom count sqivar > 0 minus nstar; C15.NORM - normbase takes the rms over the current length of self.g. NOT decided: every optimality, monotonicity, normalisation and projection statement (numerical).'),
     'floors': {'C15.DOF': 1, 'C15.NORM': 1, 'C15.HMF-IMMUT': 2, 'C15.SEED': 2, 'C15.EIG-ALIGN': 2, 'C15.COV': 2, 'C15.PURE-PROPS': 10, 'C15.USEMASK': 1, 'C15.PINV': 2, 'C15.SYNW': 1},
 }
 
